@@ -8,14 +8,14 @@ from vlib.worker import exc_key
 PROPERTY = 'C06'
 LEVEL = 'exploration'
 RULE = ('Inputs: small generated documents of every selectable map (4010 -> 997, 5010 -> 999), 1-3 sets, 1-3 groups, with 0-8 stacked catalogue faults, many errors on one segment, '
-        'missing ST02/GS06, structural mutations, and a hostile family written with delimiters other than ~ * : whose offending values contain ~ * : ^ and are 1-200 characters long; plus the fixtures. '
+        'missing ST02/GS06, structural mutations, envelope soups (a well-formed ISA followed by header, trailer and body segments in arbitrary order), and a hostile family written with delimiters other than ~ * : whose offending values contain ~ * : ^ and are 1-200 characters long; plus the fixtures. '
         'For every acknowledgement written: (a) complete - no "Failed to create" log record, runs ISA..IEA; (b) an independent tokenizer + recount find no envelope discrepancy (SE/GE/IEA counts, '
         'trailer ids, unique ST02) and the real X12Reader reports no envelope error either; (c) only acknowledgement segment ids occur, AK3/AK4/IK3/IK4 stay within their element counts and the '
         'number of AK2/AK5 loops equals the sets in the error tree - echoed data added or split nothing; (d) fed back to x12n_document it selects the 997/999 map (no map-not-found) and is accepted '
         'whenever every copied value fits the acknowledgement\'s own element definitions. non-trivial = distinct acknowledgements containing >=1 AK4/IK4 with an echoed value.')
 ASSUMPTIONS = ['(d) acceptance is required only when the values copied from the input (control numbers, ids, echoed data) fit the 997/999 element definitions; otherwise only "no exception, no map-not-found"',
                'inputs for which validation itself does not complete are C07\'s business']
-REQUIRED_COUNTERS = ['acks', 'acks:997', 'acks:999', 'acks-with-echo', 'echo-with-ack-delimiter', 'reread', 'revalidated', 'revalidated:accepted']
+REQUIRED_COUNTERS = ['inputs:envelope-soup', 'acks', 'acks:997', 'acks:999', 'acks-with-echo', 'echo-with-ack-delimiter', 'reread', 'revalidated', 'revalidated:accepted']
 MIN_CASES = {'quick': 500, 'thorough': 15000}
 WATCHDOG_S = {'quick': 1200, 'thorough': 7200}
 
@@ -252,7 +252,7 @@ def run(ctx):
             continue
         if len(doc.recs) > 300:
             continue
-        fam = rng.choice(['faults', 'faults', 'hostile', 'hostile', 'many', 'missing-ctl', 'mutated'])
+        fam = rng.choice(['faults', 'faults', 'hostile', 'hostile', 'many', 'missing-ctl', 'mutated', 'soup'])
         terms = ('~', '*', ':')
         kinds = [fam]
         if fam == 'faults':
@@ -277,6 +277,10 @@ def run(ctx):
                 if r.node.id == 'GS' and rng.random() < 0.3:
                     r.vals[1] = rng.choice(['', 'A', 'SENDER WITH BLANK'])
         text = doc.text(terms[0], terms[1], terms[2], '\n' if terms[0] != '\n' else '')
+        if fam == 'soup':
+            # header, trailer and body segments in arbitrary order behind a well-formed ISA: whatever the tree looks like, the acknowledgement must be whole
+            text = mutate.envelope_soup(rng, e['icvn'])
+            ctx.count('inputs:envelope-soup')
         if fam == 'mutated':
             text, names = mutate.mutate(rng, text)
             kinds += names
